@@ -31,6 +31,7 @@ def run(chk):
     chk.rule('C05-R3', 'sigmavMid^2 = (sigmav3d*Z)^2 - sigmavMaj^2 - sigmavMin^2, homogeneous of degree Z^2', 2)
     chk.rule('C05-R4', 'convert_units switch binds (B,Z) to (BoxSize, VelZSpace_to_kms) or both to 1.0; loaders read no header', 2)
     chk.rule('C05-R5', 'INT16SCALE == 32000', 1)
+    chk.rule('C05-R6', 'int16 raw columns are promoted to float before they meet a header scalar or an integer (no silent int16 wrap-around for integer BoxSize)', 30)
     chk.exhaustive = True
     tabs = dtype_tables(src)
     for t in ('user_dt', 'clean_dt_progen', 'halo_lc_dt'):
@@ -80,6 +81,10 @@ def run(chk):
             continue
         for imp in res['impure']:
             hdr_reads.append(f'{name}: {imp}')
+        if any(k_.endswith('_i16') for k_ in res['raw']):
+            chk.check(not res['promo'], 'C05-R6', CAT, SETUP, f'{name}: int16 data promoted to float first', '',
+                      '; '.join(res['promo'][:2]) + ': with an integer BoxSize / VelZSpace_to_kms in the header the product wraps around in int16, '
+                      'so the column is no longer stored value / 32000 x conversion', node=node, nontrivial=False)
         v = res['value']
         if isinstance(v, dict):
             ent = v.get(name)
